@@ -8,6 +8,7 @@ import (
 
 	"verif/harness/clockx"
 	"verif/harness/forge"
+	"verif/harness/identx"
 	"verif/harness/idsx"
 	"verif/harness/page"
 	"verif/harness/queryx"
@@ -17,21 +18,25 @@ import (
 )
 
 var commands = map[string]func(args []string){
-	"page":              page.Run,
-	"clock":             clockx.Run,
-	"forge":             forge.Run,
-	"forge-worker":      forge.Worker,
-	"ids-vectors":       idsx.Vectors,
-	"ids-trace":         idsx.Trace,
-	"snapshot":          snapx.Run,
-	"snapshot-trace":    snapx.TraceCmd,
-	"query-parse":       queryx.ParseCmd,
-	"query-trace":       queryx.EvalCmd,
-	"query-parse-trace": queryx.ParseTraceCmd,
-	"sig":               sigx.Run,
-	"sig-worker":        sigx.Worker,
-	"world":             world.RunCmd,
-	"world-worker":      world.WorkerCmd,
+	"page":                page.Run,
+	"clock":               clockx.Run,
+	"forge":               forge.Run,
+	"forge-worker":        forge.Worker,
+	"ids-vectors":         idsx.Vectors,
+	"ids-trace":           idsx.Trace,
+	"snapshot":            snapx.Run,
+	"snapshot-trace":      snapx.TraceCmd,
+	"query-parse":         queryx.ParseCmd,
+	"query-trace":         queryx.EvalCmd,
+	"query-parse-trace":   queryx.ParseTraceCmd,
+	"ident":               identx.Run,
+	"ident-worker":        identx.Worker,
+	"ident-fields":        identx.FieldsCmd,
+	"ident-fields-worker": identx.FieldsWorker,
+	"sig":                 sigx.Run,
+	"sig-worker":          sigx.Worker,
+	"world":               world.RunCmd,
+	"world-worker":        world.WorkerCmd,
 }
 
 func main() {
